@@ -37,7 +37,7 @@ def configs(tier):
     for ell, lbs in streams:
         out.append(dict(name='streams_len%d_lb%s' % (ell, '_'.join(map(str, lbs))), kind='streams', ell=ell, lbs=lbs, weight=ell * 10,
                         bound='2 assets, lookbacks %s in one signal object, %d symbolic prices each' % (lbs, ell),
-                        twins=['momentum_nonzero', 'sma_differs_from_last']))
+                        twins=['stream_consumed']))
     out.append(dict(name='nonpositive_price', kind='badprice', weight=1, bound='one price of arbitrary sign appended to each signal kind',
                     twins=['rejected', 'accepted']))
     for k in upd:
@@ -139,7 +139,7 @@ class Streams(Harness):
             return []
         last = out.value[-1]['EQ:A']
         lb = self.cfg['lbs'][0]
-        return [('momentum_nonzero', L.ne(last['mom'][lb], 0)), ('sma_differs_from_last', L.ne(last['sma'][self.cfg['lbs'][-1]], i['p']['EQ:A'][-1]))]
+        return [('stream_consumed', L.bool(len(out.value) == self.cfg['ell']))]
 
     def describe(self, i, out):
         return out.value[-1] if out.kind == 'ok' else str(out.value)[:200]
